@@ -4,7 +4,7 @@
 OUT=${1:-/verif/seeded/RESULTS.tsv}
 cd /verif
 : > $OUT.tmp
-for d in seeded/*/; do
+for d in seeded/${FILTER:-*}/; do
   id=$(basename $d)
   [ -f $d/meta.json ] || continue
   prop=$(python3 -c "import json;print(json.load(open('$d/meta.json'))['property'])")
